@@ -43,19 +43,31 @@ def run(ctx):
         ctx.analysed(h.path)
         hf = Flow(h.body)
         hs = Slicer(h.body)
-        found = {}
+        # the selection = the local that receives self.a_large on one path and self.a_small on another (whatever it is called, and also when
+        # the selection sits in a helper that was inlined)
+        groups = {}
         for blk in h.body.blocks:
             if blk.cleanup:
                 continue
             for st in blk.stmts:
-                if st.k == "assign" and not st.lhs[1] and h.body.names.get(st.lhs[0]) == "block_length":
-                    v = show(hs.x.rvalue(st.rv, hs.x.depth))
-                    fs = hf.facts_at(blk.i)
-                    lt = [tr for (a, tr) in fs if a[0] == "lt" and "nb_a_large" in show(a[2]) and ("curr_sbn" in show(a[1]) or re.match(r"^value(~\d+)?$", show(a[1])))]
-                    ge = [tr for (a, tr) in fs if a[0] == "le" and "nb_a_large" in show(a[1]) and ("curr_sbn" in show(a[2]) or re.match(r"^value(~\d+)?$", show(a[2])))]
+                if st.k == "assign" and not st.lhs[1]:
+                    v = re.sub(r" as \w+|[()]", "", show(hs.x.rvalue(st.rv, hs.x.depth)))
+                    if v in ("self.a_large", "self.a_small"):
+                        groups.setdefault(st.lhs[0], []).append((v, blk.i))
+        found = {}
+        sel_local = None
+        for l_, vals in groups.items():
+            if {v for v, _ in vals} == {"self.a_large", "self.a_small"}:
+                sel_local = l_
+                for v, bb_ in vals:
+                    fs = hf.facts_at(bb_)
+
+                    def is_sbn(e_):
+                        return "self.curr_sbn" in show(hs.expand(e_), 120)
+                    lt = [tr for (a, tr) in fs if a[0] == "lt" and "nb_a_large" in show(hs.expand(a[2]), 80) and is_sbn(a[1])]
+                    ge = [tr for (a, tr) in fs if a[0] == "le" and "nb_a_large" in show(hs.expand(a[1]), 80) and is_sbn(a[2])]
                     found[v] = ("lt" if (lt and all(lt)) else ("ge" if (ge and all(ge)) else "?"))
         key = "%s block_length selection" % nm
-        # `value` binds curr_sbn as u64
         if found.get("self.a_large") == "lt" and found.get("self.a_small") in ("ge",):
             r3.ok(key, "a_large iff curr_sbn < nb_a_large", loc(h.sp))
         else:
@@ -63,7 +75,12 @@ def run(ctx):
         for s in call_sites(h, lambda p, c: p == "sender::block::Block::new_from_buffer"):
             a = s.expr[2]
             key = "%s Block::new_from_buffer args" % nm
-            if show(a[0]) == "self.curr_sbn" and show(a[2]) == "block_length" and show(a[3]) in ("oti", "&oti"):
+            # third argument: the selected value (possibly copied into a named local)
+            third = hs.expand(a[2])
+            sel_name = h.body.names.get(sel_local, "_%s" % sel_local) if sel_local is not None else None
+            third_ok = sel_local is not None and (show(third) == sel_name or any(c[0] in ("var", "tmp") and (c[1] == sel_name or c[1] == sel_local) for c in walk(third)) or
+                                                  any(z in ("var:%s" % sel_name, "var:self.a_large") for z in hs.sources(a[2])))
+            if show(a[0]) == "self.curr_sbn" and third_ok and show(a[3]) in ("oti", "&oti"):
                 r3.ok(key, "", s.loc)
             else:
                 r3.violation(key, "block built with (%s, _, %s, %s)" % (show(a[0], 30), show(a[2], 30), show(a[3], 30)), s.loc)
